@@ -106,4 +106,14 @@ starting one byte later can end *earlier*), and when the bytes a `*` has to abso
     (ASCII, Latin, Greek, Cyrillic, Hebrew, Arabic …: everything below U+0800, and any invalid bytes) -/
 def NoWide (s : Bytes) : Prop := ∀ k, (decode1 (s.drop k)).2 ≤ 2
 
+/-- the pattern has only literal bytes and `*` (`*.log`, `access*2024*`): every piece has a fixed width -/
+def FixedWidth (ast : Pat) : Prop := ∀ it ∈ ast, it = Item.star ∨ ∃ b, it = Item.lit b
+
+/-- an item that can match the byte `/` -/
+def Item.admitsSlash : Item → Bool
+  | .lit b => b == slash
+  | .any => false
+  | .star => false
+  | .cls neg rs => inRanges 47 rs != neg
+
 end Rare.C06.Spec
